@@ -11,8 +11,9 @@
                       `OpOK` (= `OpPre` for an edit) at the state where it is applied; the calls
                       `delete_nodes / add_edges / delete_edges / swap_predecessors / undo / redo /
                       is_valid` have NO precondition (`ctlPre_free`); `update_node_attrs`: `OpPre` of
-                      every row, and the call is accepted or has at most one node (`AttrsPre`) — the
-                      excluded case is the defect of `C11_controller_update_attrs_partial`.
+                      every row (`AttrsPre`) — since the repair of `_update_node_attrs` (rollback of
+                      the applied updates when a later node raises; `C11_controller_update_attrs_refused`)
+                      nothing else is needed.
   * `ctlFinal s t cs` a controller session with its timeline; `CtlSessOK s cs` every call admissible.
   * `Added s s' k`    `s'` = `s` after `k` × `add_new_action` and `k` × `refresh.emit`.
 -/
@@ -23,12 +24,14 @@ open C02R3DEx C01R3CEx C01R3DEx
 
 namespace C03R7TEx
 /-- a controller session on the graph-only state `XG` (1@0 → {2@1, 3@1}, 2 → 4@3, 5@2; position key 7):
-    update two nodes in one call (ONE history entry), delete two edges in one call (two entries), add
+    update two nodes in one call (ONE history entry), an update of two nodes whose second node does
+    not exist (raises; the first node is rolled back), delete two edges in one call (two entries), add
     two edges in one call, undo ×2, redo, an `add_edges` silently refused (the edge exists),
     `delete_nodes` whose second element raises (the first stays deleted), a swap turned into a
     warning, `add_edges` with a backward pair (`is_valid` accepts, `UserAddEdge` raises), `is_valid` -/
 def sessC : List CtlOp :=
   [.updateNodeAttrs [5, 4] [(7, [.tok 9, .tok 8])],
+   .updateNodeAttrs [5, 99] [(7, [.tok 1, .tok 2])],
    .deleteEdges [(1, 2), (2, 4)],
    .addEdges [(2, 5), (5, 4)] false,
    .undo, .undo, .redo,
@@ -38,29 +41,28 @@ def sessC : List CtlOp :=
    .addEdges [(4, 2)] false,
    .isValid (2, 5)]
 
-theorem upd_pre : CtlPre XG (.updateNodeAttrs [5, 4] [(7, [.tok 9, .tok 8])]) := by
-  refine ⟨fun p hp row hrow => ?_, .inl ⟨_, rfl⟩⟩
-  have h1 : p ∈ [((0 : Nat), (5 : Node)), (1, 4)] := hp
-  have h2 : p = (0, 5) ∨ p = (1, 4) := by
+theorem rows_pre (s : St) (hr : s.regNode = [7]) (n0 n1 : Node) (v0 v1 : Int) :
+    CtlPre s (.updateNodeAttrs [n0, n1] [(7, [.tok v0, .tok v1])]) := by
+  intro p hp row hrow
+  have h1 : p ∈ [((0 : Nat), n0), (1, n1)] := hp
+  have h2 : p = (0, n0) ∨ p = (1, n1) := by
     simpa only [List.mem_cons, List.mem_nil_iff, or_false] using h1
+  have key : ∀ v : Int, OpPre s (.updAttrs p.2 [(7, .tok v)]) := by
+    intro v kv hkv
+    rw [List.mem_singleton.1 hkv]
+    exact ⟨fun _ => by rw [hr]; exact List.mem_singleton.2 rfl, fun _ _ => by intro h; cases h⟩
   rcases h2 with rfl | rfl
-  · have : row = [(7, .tok 9)] := by
-      have h : attrRow [(7, [Val.tok 9, Val.tok 8])] 0 = some [(7, .tok 9)] := by decide
-      rw [h] at hrow; cases hrow; rfl
-    subst this
-    intro kv hkv
-    rw [List.mem_singleton.1 hkv]
-    exact ⟨fun _ => by decide, fun _ _ => by decide⟩
-  · have : row = [(7, .tok 8)] := by
-      have h : attrRow [(7, [Val.tok 9, Val.tok 8])] 1 = some [(7, .tok 8)] := by decide
-      rw [h] at hrow; cases hrow; rfl
-    subst this
-    intro kv hkv
-    rw [List.mem_singleton.1 hkv]
-    exact ⟨fun _ => by decide, fun _ _ => by decide⟩
+  · have h : attrRow [(7, [Val.tok v0, Val.tok v1])] 0 = some [(7, .tok v0)] := rfl
+    rw [h] at hrow; cases hrow; exact key v0
+  · have h : attrRow [(7, [Val.tok v0, Val.tok v1])] 1 = some [(7, .tok v1)] := rfl
+    rw [h] at hrow; cases hrow; exact key v1
+
+theorem upd_pre : CtlPre XG (.updateNodeAttrs [5, 4] [(7, [.tok 9, .tok 8])]) :=
+  rows_pre XG rfl 5 4 9 8
 
 theorem sessC_ok : CtlSessOK XG sessC :=
-  ⟨upd_pre, ctlPre_free _ trivial, ctlPre_free _ trivial, ctlPre_free _ trivial, ctlPre_free _ trivial,
+  ⟨upd_pre, rows_pre _ (by decide) 5 99 1 2,
+    ctlPre_free _ trivial, ctlPre_free _ trivial, ctlPre_free _ trivial, ctlPre_free _ trivial,
     ctlPre_free _ trivial, ctlPre_free _ trivial, ctlPre_free _ trivial, ctlPre_free _ trivial,
     ctlPre_free _ trivial, ctlPre_free _ trivial, trivial⟩
 
@@ -184,7 +186,8 @@ theorem C03_controller_reach (s0 : St) (h0 : s0.hist = {}) (hI : Inv s0) (cs : L
     h.inv.valid.book, h.inv.segOK, ⟨x, hx, hE, hE.1⟩, z1, z2, h.all⟩
   obtain ⟨rest, rfl⟩ := hp
   exact (ctl_run_inv pre (CInv.init s0 h0 hI) (ctlSessOK_append pre rest s0 hs)).inv
--- the session `sessC` on `XG` (11 calls, 7 history entries, 8 timeline states) and the `add_nodes`
+-- the session `sessC` on `XG` (12 calls, one of them a refused two-node update; 7 history entries,
+-- 8 timeline states) and the `add_nodes`
 -- session `sessN`
 example : (ctlFinal XG ⟨[XG], 0⟩ sessC).1.Valid ∧ (ctlFinal XG ⟨[XG], 0⟩ sessC).1.Forest ∧
     (ctlFinal XG ⟨[XG], 0⟩ sessC).1.ids = [1, 2, 4, 5] ∧
@@ -234,8 +237,8 @@ theorem C01_controller_add_nodes_node_id_lost :
     a call that returns normally has made exactly one history entry (`add_new_action`) and one
     refresh per element — `update_node_attrs`, `swap_predecessors`, `update_segmentations`: one in
     all —, a silently refused call (warning + `return`) none; a call that raises has made one per
-    element BEFORE the raising one (`update_node_attrs`: none at all, whatever it has already
-    written: see C11 below). A silently refused `add_edges` / `delete_edges` returns the very state
+    element BEFORE the raising one (`update_node_attrs`: none at all — and what it had written is
+    rolled back: C11 below). A silently refused `add_edges` / `delete_edges` returns the very state
     it was given. -/
 theorem C02_controller_steps (s : St) :
     (∀ a, StepsSpec s (.addNodes a)) ∧ (∀ ns, StepsSpec s (.deleteNodes ns)) ∧
@@ -263,44 +266,81 @@ example :
   refine ⟨by decide, by decide, by decide, by decide, by decide⟩
 #print axioms C02_controller_steps
 
-/-- **C11 is violated by `update_node_attrs` (witness).** `update_node_attrs([5, 99], {k: [9, 8]})`
-    on `XG` (node 99 does not exist): the call raises `KeyError` AFTER node 5 was updated — its
-    attribute is 9 instead of 4 —, nothing was registered in the history (`_update_node_attrs`
-    raised before `add_new_action`), no refresh was emitted, `undo()` answers `False`: the change
-    cannot be undone. The same happens when a column is shorter than the node list (`IndexError`).
-    A refused action that leaves the tracks changed contradicts C11. -/
-theorem C11_controller_update_attrs_partial :
+/-- **C11 was violated by `update_node_attrs` before the repair (witness about the UNFIXED function
+    `ctlUpdateNodeAttrsUnfixed` = the code before `fix:` a7bb82b).**
+    `update_node_attrs([5, 99], {k: [9, 8]})` on `XG` (node 99 does not exist): the call raised
+    `KeyError` AFTER node 5 was updated — its attribute was 9 instead of 4 —, nothing was registered
+    in the history (`_update_node_attrs` raised before `add_new_action`), no refresh was emitted,
+    `undo()` answered `False`: the change could not be undone. The same happened when a column was
+    shorter than the node list (`IndexError`). The repaired function restores node 5 in both cases. -/
+theorem C11_controller_update_attrs_counterexample_unfixed :
     -- unknown second node
-    (XG.ctlStep (.updateNodeAttrs [5, 99] [(7, [.tok 9, .tok 8])])).2 = .err .key ∧
+    (XG.ctlUpdateNodeAttrsUnfixed [5, 99] [(7, [.tok 9, .tok 8])]).2 = .err .key ∧
     XG.otherOf 5 7 = .tok 4 ∧
-    (XG.ctlStep (.updateNodeAttrs [5, 99] [(7, [.tok 9, .tok 8])])).1.otherOf 5 7 = .tok 9 ∧
-    (XG.ctlStep (.updateNodeAttrs [5, 99] [(7, [.tok 9, .tok 8])])).1.hist.undo = [] ∧
-    (XG.ctlStep (.updateNodeAttrs [5, 99] [(7, [.tok 9, .tok 8])])).1.hist.redo = [] ∧
-    (XG.ctlStep (.updateNodeAttrs [5, 99] [(7, [.tok 9, .tok 8])])).1.refreshes = XG.refreshes ∧
-    ((XG.ctlStep (.updateNodeAttrs [5, 99] [(7, [.tok 9, .tok 8])])).1.ctlStep .undo).2 = .bool false ∧
+    (XG.ctlUpdateNodeAttrsUnfixed [5, 99] [(7, [.tok 9, .tok 8])]).1.otherOf 5 7 = .tok 9 ∧
+    (XG.ctlUpdateNodeAttrsUnfixed [5, 99] [(7, [.tok 9, .tok 8])]).1.hist.undo = [] ∧
+    (XG.ctlUpdateNodeAttrsUnfixed [5, 99] [(7, [.tok 9, .tok 8])]).1.hist.redo = [] ∧
+    (XG.ctlUpdateNodeAttrsUnfixed [5, 99] [(7, [.tok 9, .tok 8])]).1.refreshes = XG.refreshes ∧
+    ((XG.ctlUpdateNodeAttrsUnfixed [5, 99] [(7, [.tok 9, .tok 8])]).1.ctlStep .undo).2 = .bool false ∧
     -- a column shorter than the node list
+    (XG.ctlUpdateNodeAttrsUnfixed [5, 4] [(7, [.tok 9])]).2 = .err .other ∧
+    (XG.ctlUpdateNodeAttrsUnfixed [5, 4] [(7, [.tok 9])]).1.otherOf 5 7 = .tok 9 ∧
+    (XG.ctlUpdateNodeAttrsUnfixed [5, 4] [(7, [.tok 9])]).1.hist.undo = [] ∧
+    -- the repaired function on the same calls
+    (XG.ctlStep (.updateNodeAttrs [5, 99] [(7, [.tok 9, .tok 8])])).2 = .err .key ∧
+    (XG.ctlStep (.updateNodeAttrs [5, 99] [(7, [.tok 9, .tok 8])])).1.otherOf 5 7 = .tok 4 ∧
     (XG.ctlStep (.updateNodeAttrs [5, 4] [(7, [.tok 9])])).2 = .err .other ∧
-    (XG.ctlStep (.updateNodeAttrs [5, 4] [(7, [.tok 9])])).1.otherOf 5 7 = .tok 9 ∧
-    (XG.ctlStep (.updateNodeAttrs [5, 4] [(7, [.tok 9])])).1.hist.undo = [] := by
+    (XG.ctlStep (.updateNodeAttrs [5, 4] [(7, [.tok 9])])).1.otherOf 5 7 = .tok 4 := by
   refine ⟨by decide, by decide, by decide, by decide, by decide, by decide, by decide, by decide,
-    by decide, by decide⟩
-#print axioms C11_controller_update_attrs_partial
+    by decide, by decide, by decide, by decide, by decide, by decide⟩
+#print axioms C11_controller_update_attrs_counterexample_unfixed
+
+/-- **C11 for `update_node_attrs` (repaired code), any number of nodes.** From a state with the
+    graph invariants (`Valid`, well-formed with sound maxima, edge invariant — all part of `Inv`;
+    NO hypothesis on the nodes, keys or values: unknown nodes, unregistered keys, protected keys,
+    short columns …): whenever `update_node_attrs(nodes, attributes)` raises, the state it leaves is
+    equal to the state before the call up to the common equivalence — observationally equal
+    (`ObsEq`: every node, edge, attribute with `None` ≡ absent, the array) —, nothing was registered
+    in the history, no refresh was emitted; and `Inv` is inherited. -/
+theorem C11_controller_update_attrs_refused (s : St) (ns : List Node) (cols : List (Key × List Val))
+    (e : Err) (hV : s.Valid) (hG : Good s) (hE : EdgeInv s)
+    (herr : (s.ctlStep (.updateNodeAttrs ns cols)).2 = .err e) :
+    E (s.ctlStep (.updateNodeAttrs ns cols)).1 s ∧ ObsEq (s.ctlStep (.updateNodeAttrs ns cols)).1 s ∧
+    (s.ctlStep (.updateNodeAttrs ns cols)).1.hist = s.hist ∧
+    (s.ctlStep (.updateNodeAttrs ns cols)).1.refreshes = s.refreshes ∧
+    (s.ctlStep (.updateNodeAttrs ns cols)).1.lastPayload = s.lastPayload ∧
+    (Inv s → Inv (s.ctlStep (.updateNodeAttrs ns cols)).1) := by
+  obtain ⟨h1, h2⟩ := updateNodeAttrs_refused (ns := ns) (cols := cols) ⟨hV, hG, hE⟩ herr
+  exact ⟨h1, h1.1, hist_of_ctl h2, refreshes_of_ctl h2, lastPayload_of_ctl h2, fun hI => Inv.of_E h1 hI⟩
+-- on `XG`: three nodes, the third unknown — nodes 5 and 4 were updated and are restored; a short
+-- column; an unregistered key (8) on the first node
+example :
+    (XG.ctlStep (.updateNodeAttrs [5, 4, 99] [(7, [.tok 9, .tok 8, .tok 7])])).2 = .err .key ∧
+    ((XG.updLoop [5, 4, 99] [(7, [.tok 9, .tok 8, .tok 7])]).2.1.length,
+      (XG.updLoop [5, 4, 99] [(7, [.tok 9, .tok 8, .tok 7])]).1.otherOf 5 7,
+      (XG.updLoop [5, 4, 99] [(7, [.tok 9, .tok 8, .tok 7])]).1.otherOf 4 7) = (2, .tok 9, .tok 8) ∧
+    ObsEq (XG.ctlStep (.updateNodeAttrs [5, 4, 99] [(7, [.tok 9, .tok 8, .tok 7])])).1 XG ∧
+    (XG.ctlStep (.updateNodeAttrs [5, 4, 99] [(7, [.tok 9, .tok 8, .tok 7])])).1.otherOf 5 7 = .tok 4 ∧
+    ObsEq (XG.ctlStep (.updateNodeAttrs [5, 4] [(8, [.tok 1])])).1 XG := by
+  have h1 : (XG.ctlStep (.updateNodeAttrs [5, 4, 99] [(7, [.tok 9, .tok 8, .tok 7])])).2 = .err .key := by decide
+  have h2 : (XG.ctlStep (.updateNodeAttrs [5, 4] [(8, [.tok 1])])).2 = .err .other := by decide
+  exact ⟨h1, by decide,
+    (C11_controller_update_attrs_refused XG _ _ _ XG_inv.valid XG_inv.good XG_inv.edge h1).2.1, by decide,
+    (C11_controller_update_attrs_refused XG _ _ _ XG_inv.valid XG_inv.good XG_inv.edge h2).2.1⟩
+#print axioms C11_controller_update_attrs_refused
 
 /-- what IS true of a raising `update_node_attrs`: (1) a protected key (time, an annotator-managed
     feature) cannot cause a partial application through this API — the columns give every node the
     same keys, so the FIRST node raises `ValueError` (or `IndexError`) and the state is untouched;
-    (2) whatever was written, nothing is registered and no refresh is emitted; (3) with at most one
-    node a raising call leaves the state untouched. -/
+    (2) in every state, whatever the arguments, a raising call registers nothing and emits no
+    refresh. -/
 theorem C11_controller_update_attrs_protected (s : St) :
     (∀ n ns cols, (∃ kv ∈ cols, kv.1 ∈ s.protectedKeys) →
       ∃ e, s.ctlStep (.updateNodeAttrs (n :: ns) cols) = (s, .err e)) ∧
     (∀ ns cols e, (s.ctlStep (.updateNodeAttrs ns cols)).2 = .err e →
       (s.ctlStep (.updateNodeAttrs ns cols)).1.hist = s.hist ∧
-      (s.ctlStep (.updateNodeAttrs ns cols)).1.refreshes = s.refreshes) ∧
-    (∀ ns cols e, ns.length ≤ 1 → (s.ctlStep (.updateNodeAttrs ns cols)).2 = .err e →
-      (s.ctlStep (.updateNodeAttrs ns cols)).1 = s) := by
-  refine ⟨fun n ns cols hp => updateNodeAttrs_protected s n ns cols hp, fun ns cols e herr => ?_,
-    fun ns cols e hl herr => updateNodeAttrs_err_small hl herr⟩
+      (s.ctlStep (.updateNodeAttrs ns cols)).1.refreshes = s.refreshes) := by
+  refine ⟨fun n ns cols hp => updateNodeAttrs_protected s n ns cols hp, fun ns cols e herr => ?_⟩
   obtain ⟨k, hk, l, hl, hh, hr⟩ := (steps_updateNodeAttrs s ns cols).2 e herr
   have hk0 : k = 0 := by
     rcases hk with h | h
